@@ -247,4 +247,19 @@ example : machine.next midModel 0 0 = .call 0 0 1 := rfl
 /-- the hypothesis of `fuel_irrelevant` is met by the D18 program with fuel 20 -/
 example : (runOps machine d18 20 (Run.init State.fresh 1 2) d18ops).oof = false := by decide
 
+/-! ### the fault flags are live: in the inconsistent state defect D18 used to produce — the emitter
+    still holds a `connected` entry for a listener that is gone — `~Emitter` faults and an emission
+    is flagged -/
+
+def danglingData : SignalData :=
+  { activation := none, dirty := false,
+    slots := [{ receiver := 0, object := 0, slot := 0, node := 0, state := .connected }] }
+
+def dangling : State :=
+  { emitters := fun e => if e = 0 then some { sigKeys := [0], sig := fun g => if g = 0 then some danglingData else none } else none
+    listeners := fun _ => none, frames := [], nextNode := 1, fault := false }
+
+example : (delEmitter 0 dangling).fault = true := rfl
+example : (exec machine d18 5 (Run.init dangling 1 1) (.acts [.emit 0 0])).bad = true := rfl
+
 end Nstd.Callback
